@@ -26,6 +26,7 @@ PTYPES = ['default', 'quadratic', 'linear', 'uniform']
 KS = [None, 1, 2.5, 1e6]
 COEFS = [1, -1, 2, -2, 0.5, -0.25, 3, 0.1, -0.3, 7.5, 4, -1.5]
 EPS = 1e-9
+EXTRAS = ('none', 'product', 'abs', 'gcall', 'const')
 CN = ['K0', 'e', 'pi', 'tau', 'inf', 'euler_gamma', 'nan', 'size', 'len', 'id']      # names of a constant given in locals
 FN = ['g', 'hypot', 'gamma', 'power', 'pow', 'fmod']                                # names of a function given in locals
 KV = [2.5, -0.75, 3.0, 0.25, 8.0, -1.5]
@@ -102,7 +103,7 @@ def gen_sequence(cmp, scheme, extra, direct, seed):
     kv, tl, steps = rn.sample(KV, 3), rn.sample(SEQ_TOLS, 3), []
     for i in range(3):
         st = base if i < 2 else gen_program(cmp, scheme, nl, extra, seed + 1, cross=direct, direct=direct, family='sequence')
-        st = dict(st, cname=base['cname'], fname=base['fname'], K0=kv[i], g=sorted(GF)[(i + seed) % 2], tols=tl[i], step=i)
+        st = dict(st, cname=base['cname'], fname=base['fname'], K0=kv[i], g=sorted(GF)[(i + seed) % 2], tols=tl[i], step=i, tag='%s|step%d' % (base['tag'], i))
         st['lines'] = [dict(ln, **({'rname': base['cname']} if ln.get('rname') else {})) for ln in st['lines']]
         if i == 2:          # the other text uses the same names
             for ln in st['lines']:
@@ -305,7 +306,15 @@ def check_program(spec, res, stats, npts):
             eval_program(st, b, res, stats, npts, dict(spec, step=st['step']))
 
 
-def check_point(spec, text, conds, order, pens, kind, x, res, stats, inp, cross):
+def _real(v):
+    """a real scalar (python / numpy number or bool), i.e. something the order clauses can be asked about"""
+    try:
+        return not isinstance(v, complex) and float(v) == v
+    except Exception:
+        return False
+
+
+def check_point(spec, text, conds, pens, kind, x, res, stats, inp, cross):
     key = 'C14/bounded/%s/' % spec['family']
     orc = oracle(spec, x)
     if not all(math.isfinite(float(o[1])) for o in orc):
@@ -323,8 +332,10 @@ def check_point(spec, text, conds, order, pens, kind, x, res, stats, inp, cross)
             res.violation(key + 'condition-call', '%r line %r at %r: %s: %s' % (text, ln['cmp'], x, type(e).__name__, e), inp)
             return
         d = '%r line %r at %r: value %r, oracle %r' % (text, ln['cmp'], x, got, val)
-        if not (got == val):
+        if not (_real(got) and got == val):               # the remaining clauses need an ordered value
             res.violation(key + 'value', d, inp)
+            if not _real(got):
+                continue
         if ln['cmp'] in ('<=', '>=') and (got <= 0) != truth:
             res.violation(key + 'inequality-iff-nonpositive', d, inp)
         if ln['cmp'] in ('=', '==', '!=') and (got == 0) != truth:
@@ -333,29 +344,38 @@ def check_point(spec, text, conds, order, pens, kind, x, res, stats, inp, cross)
             res.violation(key + 'strict-tolerance-side', d, inp)
         if cross and not (sat or (cross == 'rounding' and (abs(float(val)) if k == 'eq' else float(val)) <= EPS * scale)):
             res.violation(key + 'constraint-satisfies-condition#' + cross + ('-ne' if ln['cmp'] == '!=' and cross == 'rounding' else ''), d + ' (after the constraint; scale %r)' % scale, inp)
-    for pt, k, pen in pens:
+    for lab, k, pen, groups, comb, tag in pens:
         try:
             P = pen(list(x))
         except Exception as e:
-            res.violation(key + 'penalty-call', '%r ptype=%s at %r: %s: %s' % (text, pt, x, type(e).__name__, e), inp)
+            res.violation(key + 'penalty-call' + tag, '%r %s at %r: %s: %s' % (text, lab, x, type(e).__name__, e), inp)
             continue
-        total, bound = 0.0, 0.0
-        for i in order:
-            total = term(pt, orc[i][0], k, orc[i][1]) + total
-            bound += term(pt, orc[i][0], k, EPS * orc[i][4]) if not orc[i][2] else 0.0
-        d = '%r ptype=%s k=%r at %r: penalty %r, documented sum %r' % (text, pt, k, x, P, total)
-        if not feq(P, total, 1e-9, 0.0):
-            res.violation(key + 'penalty-sum', d, inp)
-        under = '#underflow' if (total == 0 and not allsat) else ''      # the documented term itself underflows (c*c == 0)
+        gsum, bound = [], 0.0
+        for g in groups:
+            t = 0.0
+            for i, pf, pk in g:
+                t = term(pf, pk, k, orc[i][1]) + t
+                bound += term(pf, pk, k, EPS * orc[i][4]) if not orc[i][2] else 0.0
+            gsum.append(t)
+        pick = any if comb == 'or_' else all              # or_: the smallest group penalty; otherwise the sum
+        total = min(gsum) if comb == 'or_' else sum(gsum, 0.0)
+        zero = pick(all(orc[i][2] for i, _, _ in g) for g in groups)
+        matched = all(pk == orc[i][0] for g in groups for i, _, pk in g)     # equality types on equalities, ...
+        d = '%r %s k=%r at %r: penalty %r, documented %s %r' % (text, lab, k, x, P, 'minimum' if comb == 'or_' else 'sum', total)
+        if not (_real(P) and feq(P, total, 1e-9, 0.0)):
+            res.violation(key + 'penalty-sum' + tag, d, inp)
+        if not matched or not _real(P):
+            continue
+        under = '#underflow' if (total == 0 and not zero) else ''      # the documented term itself underflows (c*c == 0)
         if under:
             res.extra['underflow_points_skipped'] = res.extra.get('underflow_points_skipped', 0) + 1
-        elif (P == 0) != allsat or not P >= 0:
-            res.violation(key + 'zero-iff-all-satisfied', d, inp)
-        if not under and P == 0 and not all(o[3] for o in orc):
-            res.violation(key + 'zero-implies-relations-hold', d, inp)
+        elif (P == 0) != zero or not P >= 0:
+            res.violation(key + 'zero-iff-all-satisfied' + tag, d, inp)
+        if not under and P == 0 and not pick(all(orc[i][3] for i, _, _ in g) for g in groups):
+            res.violation(key + 'zero-implies-relations-hold' + tag, d, inp)
         if cross == 'exact' and P != 0:
             res.violation(key + 'penalty-zero-after-constraint#exact', d, inp)
-        if cross == 'rounding' and pt != 'uniform' and not P <= bound:
+        if cross == 'rounding' and not lab.endswith('uniform') and not P <= bound:
             ne = any(l['cmp'] == '!=' and not o[2] for l, o in zip(spec['lines'], orc))   # 15-digit coefficients miss the point
             res.violation(key + 'penalty-zero-after-constraint#rounding' + ('-ne' if ne else ''), d + ' bound %r' % bound, inp)
 
@@ -388,14 +408,34 @@ def run(tier='quick', seed=0):
              'lines over disjoint variable groups, y = generate_constraint(generate_solvers(simplify(text)))(x): '
              'isolated-form lines kept by simplify -> every condition satisfied and every penalty == 0 exactly; '
              'otherwise every condition value <= 1e-9*(sum|coef*y|+|const|+1e-290) + 2t and quadratic/linear penalty <= the '
-             'documented sum at those values.  Distinct case = (program shape, point kind, satisfied?, cross mode).',
-        bound='%s: %d x (7x4x3x5 = 420 texts) x %d points x 14 penalties; cross: %d x (7x4x3 = 84 texts) x %d points' % (
-            tier, reps, npts, ncross, npts))
+             'documented sum at those values.  Names given in locals (a constant, a two-argument function) are drawn '
+             'from K0 e pi tau inf euler_gamma nan size len id / g hypot gamma power pow fmod, i.e. mostly names that '
+             'math / numpy / builtins export too: the oracle binds the CALLER\'S values.  sequence: three compilations '
+             '(generate_conditions + 14 generate_penalty, in the direct variant also generate_solvers/generate_constraint '
+             'of already isolated lines with the named constant on the right, no simplify) with the same names bound to '
+             'different values (constant, function, tol/rel out of 5 settings), text 1 = text 0 != text 2, locals passed '
+             'as fresh dicts or as ONE dict updated in place; all clauses above are evaluated for every step AFTER the '
+             'last compilation, each against its own text and locals.  join: generate_penalty with join in None, and_, '
+             'or_ and ptype None | one type | list per function (conditions a flat list) | nested list mirroring '
+             '(inequalities, equalities) | flat list over nested conditions, a random penalty type per line, k default or '
+             '2.5: documented value = sum over groups (None, and_: unscaled linear combination) or minimum over groups '
+             '(or_) of the sum of the group\'s per-line terms (group = inequalities / equalities, or the single function); '
+             'zero iff every line (or_: every line of some group) is satisfied, checked when each line has a type of its '
+             'own kind; or_ with an empty group is not demanded.  A flat ptype list over nested conditions WITH join is '
+             'reported under sub-case ' + FLAT + '.  '
+             'Distinct case = (family, program shape, step, point kind, satisfied?, cross mode).',
+        bound='%s: %d x (7x4x3x5 = 420 texts) x %d points x 14 penalties; cross: %d x (7x4x3 = 84 texts) x %d points; join: %d x '
+              '(7x4x3 = 84 texts of 2-4 lines) x %d points x (14 + <=30 penalties); sequence: %d x (7x4x4 = 112 sequences x 3 '
+              'steps) x %d points x 14 penalties' % (tier, reps, npts, ncross, npts, reps, npts, reps, npts))
     progs = [gen_program(c, s, n, e, seed * 100 + r) for r in range(reps) for c, s, n, e in itertools.product(
-        CMPS, SCHEMES, (1, 2, 3), ('none', 'product', 'abs', 'gcall', 'const'))]
+        CMPS, SCHEMES, (1, 2, 3), EXTRAS)]
     cross = [gen_program(c, s, n, 'none', seed * 100 + r, cross=True) for r in range(ncross)
              for c, s, n in itertools.product(CMPS, SCHEMES, (1, 2, 3))]
-    jobs = [(progs[i:i + 12], npts) for i in range(0, len(progs), 12)] + [(cross[i:i + 4], npts) for i in range(0, len(cross), 4)]
+    joins = [gen_program(c, s, n, EXTRAS[(i + r) % 5], seed * 100 + 50 + r, family='join') for r in range(reps)
+             for i, (c, s, n) in enumerate(itertools.product(CMPS, SCHEMES, (2, 3, 4)))]
+    seqs = [gen_sequence(c, s, e, d, seed * 100 + r) for r in range(reps) for c, s, (e, d) in itertools.product(
+        CMPS, SCHEMES, (('const', False), ('gcall', False), ('none', False), ('none', True)))]
+    jobs = [(p[i:i + n], npts) for p, n in ((cross, 4), (joins, 3), (seqs, 6), (progs, 12)) for i in range(0, len(p), n)]
     tot = {}
     for part, stats in pmap(_work, jobs):
         res.merge(part)
@@ -409,7 +449,7 @@ def run(tier='quick', seed=0):
 def replay(inp):
     res, stats = Result('', ''), {}
     spec = dict(inp)
-    x = spec.pop('x', None)
+    x, step = spec.pop('x', None), spec.pop('step', None)
     seed_all(spec['seed'])
     check_program(spec, res, stats, 24)
     return not res.violations
